@@ -430,6 +430,7 @@ func runC13(c *eng.Ctx) {
 	ruleConsumersTableNeverReset(c)
 	c.Rule("R13.8", "K2")
 	ruleLeadershipLossCancelsGroupSubscribers(c)
+	ruleCancelGroupSubscribersAlwaysCloses(c)
 
 }
 
